@@ -97,7 +97,7 @@ pub struct SimConfig {
 impl Default for SimConfig {
     fn default() -> Self {
         SimConfig {
-            max_steps: 3_000_000,
+            max_steps: 1_000_000,
             max_vtime_ns: 3_600_000_000_000,
             switch_permille: 300,
             step_cost_ns: 200,
